@@ -217,3 +217,9 @@ def _substitutor_visit(c):
     c.raises("SubstitutionError", props=("C16",))
     c.raises_when("SubstitutionError", subraises(inner_of(X), v, kw))
     c.ensures("result-of-inner", lambda r, post: r == subres(inner_of(X), v, kw), ("C16",))
+
+
+# the first link of the chain: the base Schema.__accept__ (reached only by custom types; every built-in schema
+# overrides it) hands the schema and the incoming **kwargs, unchanged, to visitor.visit
+contract(SCH, "Schema.__accept__", props=("C16",), group="custom")(
+    custom_validate("Schema.__accept__", SCH, "self", "visitor"))
